@@ -35,15 +35,15 @@ def buildAll : List (List KV) → Option (List Node)
     | _, _ => none
 
 /-- `TrieBucket.GetValue`: first trie that has the key -/
-def bucketGet : List Node → Key → Option Nat
+def bucketGet (eon : Bool) : List Node → Key → Option Nat
   | [], _ => none
   | t :: ts, k =>
-    match getNode t k with
+    match getNode eon t k with
     | some v => some v
-    | none => bucketGet ts k
+    | none => bucketGet eon ts k
 
 /-- all pairs of a bucket with the given prefix (`FindValuesByLike` / `Suggest` before filtering) -/
-def bucketPrefix (ts : List Node) (p : Key) : List KV := ts.flatMap (fun t => prefixIter t p)
+def bucketPrefix (step : Bool) (ts : List Node) (p : Key) : List KV := ts.flatMap (fun t => prefixIter step t p)
 
 /-- `tree.Size()` = number of keys of the trie -/
 def trieSize (t : Node) : Nat := (iter t).length
@@ -53,13 +53,13 @@ bucket, in the order "kept tries, then rebuilt blocks" (the Go code first sorts 
 with the unstable `sort.Slice`; the order of the tries is not observable through the
 canonicalised queries). Kept tries are copied byte for byte (`tree.buf`). `none` = a `Build`
 panicked. -/
-def mergeTries (blockSize : Nat) (ts : List Node) : Option (List Node) :=
+def mergeTries (step : Bool) (blockSize : Nat) (ts : List Node) : Option (List Node) :=
   let big := ts.filter (fun t => trieSize t ≥ blockSize)
   let pending := ts.filter (fun t => !(trieSize t ≥ blockSize))
   match pending with
   | [] => some big
   | [p] => some (big ++ [p])
   | _ =>
-    (buildAll (writeBlocks blockSize (pending.flatMap (fun t => prefixIter t [])))).map (fun r => big ++ r)
+    (buildAll (writeBlocks blockSize (pending.flatMap (fun t => prefixIter step t [])))).map (fun r => big ++ r)
 
 end LinVerif.TrieBucket
